@@ -273,3 +273,101 @@ Proof.
   all: right; apply used_iff; rewrite Rabs_pos_eq; lra.
 Qed.
 Print Assumptions magnetic_nonvacuous.
+
+(* ------------------------------------------------------------------------
+   Round 7: the glue between Survey and get_receiver.  Model/RecCoord.v is the
+   hand model of Receiver.coordinates_abs, Survey._irec_types,
+   Survey._rec_types_coord (per-source cache = state) and
+   Simulation._get_responses.  [run sv [] ops] executes ANY history of requests
+   (any sources, any order, repeated, unknown keys, the caller scribbling over
+   returned arrays) on one Survey object starting with the empty cache.
+   ------------------------------------------------------------------------ *)
+From V Require Import Model.RecCoord Proofs.RecCoord.
+
+(* Cache coherence: for every survey (any receivers: relative/absolute,
+   electric/magnetic, any order; any sources) and EVERY history, the i-th
+   answer is the specification of the i-th operation alone: the coordinates
+   returned for source s are  coordinates_abs(centre of s)  of the electric and
+   of the magnetic receivers in survey order -- a function of (receiver,
+   source) only; an unknown key gives KeyError.  Any number type. *)
+Theorem rec_coord_history_independent {F : Type} {O : FOps F}
+        (sv : @survey F) (ops : list op) :
+  snd (run sv [] ops) = map (spec sv) ops.
+Proof. exact (history_independent sv ops). Qed.
+Print Assumptions rec_coord_history_independent.
+
+(* ... and so is any further request after any history. *)
+Theorem rec_coord_request_after_history {F : Type} {O : FOps F}
+        (sv : @survey F) (ops : list op) (s : Z) :
+  snd (request sv (fst (run sv [] ops)) s) = spec sv (Req s).
+Proof. exact (request_after_history sv ops s). Qed.
+Print Assumptions rec_coord_request_after_history.
+
+(* Fault path: a request that raises KeyError leaves the cache unchanged. *)
+Theorem rec_coord_failed_request_keeps_cache {F : Type} {O : FOps F}
+        (sv : @survey F) (st : @cache F) (s : Z) :
+  snd (request sv st s) = KeyErr -> fst (request sv st s) = st.
+Proof. exact (failed_request_keeps_cache sv st s). Qed.
+Print Assumptions rec_coord_failed_request_keeps_cache.
+
+(* Once stored, the coordinates of a source are never rewritten by whatever
+   follows (later sources, repeated requests, failed requests, scribbling). *)
+Theorem rec_coord_cache_entries_stable {F : Type} {O : FOps F}
+        (sv : @survey F) (ops : list op) (st : @cache F) (s : Z) (rw : list coord5) :
+  lookup s st = Some rw -> lookup s (fst (run sv st ops)) = Some rw.
+Proof. exact (cache_entries_stable sv ops st s rw). Qed.
+Print Assumptions rec_coord_cache_entries_stable.
+
+(* End to end: after EVERY history on the Survey object, what
+   Simulation._get_responses stores for source s and the electric (el = true,
+   field on edges) or magnetic (el = false, H field on faces) receivers is, for
+   each receiver r, the inner product of the field with the unit point-source
+   vector at  coordinates_abs(centre of s, r)  with r's orientation -- provided
+   those positions are in the inner range and the rotation factors (rotf =
+   electrodes.rotation, an oracle) are 0 or pass the guard. *)
+Theorem survey_responses_are_transposes
+        (nx ny nz : Z) (ndx ndy ndz : Z -> R) (eps : R) :
+  2 <= nx -> 2 <= ny -> 2 <= nz ->
+  strictly_increasing nx ndx -> strictly_increasing ny ndy -> strictly_increasing nz ndz ->
+  forall (rotf : R -> R -> R * R * R)
+         (sv : @survey R) (ops : list op) (s : Z) (c : R * R * R) (el : bool)
+         (fx fy fz : Z -> Z -> Z -> R),
+  lookup s (sv_sources sv) = Some c ->
+  Forall (fun r => sampled_ok nx ny nz ndx ndy ndz eps (to_batch rotf (coordinates_abs c r)))
+         (filter (fun r => Bool.eqb (rc_el r) el) (sv_receivers sv)) ->
+  exists out,
+    snd (get_responses Rleb nx ny nz ndx ndy ndz eps rotf sv (fst (run sv [] ops)) s el fx fy fz)
+    = Some out /\
+    Forall2 (fun r o =>
+               let b := to_batch rotf (coordinates_abs c r) in
+               exists vx vy vz,
+                 point_vector_gen Rleb nx ny nz ndx ndy ndz el
+                   (fst (fst (fst b))) (snd (fst (fst b))) (snd (fst b))
+                   (rx_f1 b) (rx_f2 b) (rx_f3 b) = Some (vx, vy, vz) /\
+                 o = Some (inner3 nx ny nz el vx vy vz fx fy fz))
+            (filter (fun r => Bool.eqb (rc_el r) el) (sv_receivers sv)) out.
+Proof.
+  intros Hnx Hny Hnz Ix Iy Iz rotf sv ops s c el fx fy fz.
+  exact (responses_after_history nx ny nz ndx ndy ndz eps Hnx Hny Hnz Ix Iy Iz rotf
+           sv ops s c el fx fy fz).
+Qed.
+Print Assumptions survey_responses_are_transposes.
+
+(* Non-vacuity: two sources with different centres, a relative and an absolute
+   receiver; the history  S0, S1, scribble, S0, unknown key, S1  answers S0 and
+   S1 differently (relative receiver) and S0 the same both times. *)
+Example rec_coord_nonvacuous :
+  let sv := mkSurvey [(0, (1, 2, 3)); (1, (10, 20, 30))]
+                     [mkRx true true (5, 5, 5) (0, 0); mkRx false false (7, 8, 9) (90, 0)]%Z in
+  @run Z (Build_FOps Z 0 1 Z.add Z.mul Z.sub Z.opp Z.div (fun x => x)) sv []
+       [Req 0; Req 1; Scribble; Req 0; Req 7; Req 1]
+  = ([(1, [((15, 25, 35), (0, 0)); ((7, 8, 9), (90, 0))]);
+      (0, [((6, 7, 8), (0, 0)); ((7, 8, 9), (90, 0))])],
+     [Coords [((6, 7, 8), (0, 0))] [((7, 8, 9), (90, 0))];
+      Coords [((15, 25, 35), (0, 0))] [((7, 8, 9), (90, 0))];
+      Done;
+      Coords [((6, 7, 8), (0, 0))] [((7, 8, 9), (90, 0))];
+      KeyErr;
+      Coords [((15, 25, 35), (0, 0))] [((7, 8, 9), (90, 0))]]).
+Proof. vm_compute. reflexivity. Qed.
+Print Assumptions rec_coord_nonvacuous.
